@@ -31,14 +31,16 @@ THEOREMS = [
     'C06Regex.args_loop', 'C06Regex.K5_eval', 'C06Regex.K4_eval', 'C06Regex.ws_K4',
     'C06Regex.shape_is_cascade_partial', 'C06Regex.shape_is_cascade_partial2', 'C06Regex.shape_is_cascade_partial3',
     'C06Regex.shape_is_cascade_partial4',
+    'C06Regex.splitAux_args', 'C06Regex.split_args', 'C06Regex.func_read', 'C06Regex.funcBegin?_eq', 'C06Regex.funcScan_spec', 'C06Regex.func_rx',
+    'C06Regex.function_regex', 'C06Regex.shape_is_cascade', 'C06Regex.classifyL_is_cascade', 'C06Regex.classify_is_cascade',
 ]
-LEAN_TARGETS = ['BareProofs.C06RegexPins', 'BareProofs.C06Regex', 'BareProofs.C06Regex2', 'BareProofs.C06Regex3', 'BareProofs.C06Regex4']
+LEAN_TARGETS = ['BareProofs.C06RegexPins', 'BareProofs.C06Regex', 'BareProofs.C06Regex2', 'BareProofs.C06Regex3', 'BareProofs.C06Regex4', 'BareProofs.C06Regex5']
 EXTRA_TARGETS = ['drv_c06x']
 GEN = ['Regex']
 
 # scanners whose "scanner = regex" theorem is proved for all lines without '\n' (the others are only correspondence-checked by rx-scan)
 PROVED = {'endfunction', 'endif', 'endwhile', 'endfor', 'break', 'continue', 'comment', 'continuation', 'label', 'else', 'assign', 'if', 'elif',
-          'while', 'return', 'for', 'jump', 'include'}
+          'while', 'return', 'for', 'jump', 'include', 'function', 'shape'}
 
 SCANNERS = ['assign', 'function', 'endfunction', 'if', 'elif', 'else', 'endif', 'while', 'endwhile', 'for', 'endfor', 'break', 'continue', 'label',
             'jump', 'return', 'include', 'comment', 'continuation', 'shape']
@@ -243,8 +245,8 @@ def _streams(ctx, drv):
                                  'cascade (RxPatterns.rxShape) vs the first pattern the real parse_script matched (recorded through regex proxies); lines '
                                  'without \\n; non-trivial = the pattern matches')
     st_s = ctx.stream('rx-scan', 'the hand-written scanners of Scan / Text, as Scan.shape uses them (indentation stripped, offsets re-based), vs the reading '
-                                 'of the REAL re match per pattern - the correspondence check for the patterns without a proved regex theorem (function, '
-                                 'the cascade); run for the proved ones too; non-trivial = the pattern matches')
+                                 'of the REAL re match per pattern - every statement pattern and the cascade now have a proved regex theorem '
+                                 '(C06Regex.shape_is_cascade); the stream stays as a cheap regression check of the scanners against the real re; non-trivial = the pattern matches')
     C10 = None
     try:
         from props import C10 as _C10       # impl_shape: which pattern parse_script matched first (regex proxies)
